@@ -3892,7 +3892,15 @@ def plain_column_projection(expr, parent, dependents, additional_columns=None):
 
     if column_union == expr.frame.columns:
         return
-    result = type(expr)(expr.frame[column_union], *expr.operands[1:])
+    operands = list(expr.operands[1:])
+    for i, operand in enumerate(operands):
+        # further frame operands (a condition, a replacement, the other side of an
+        # aligned operation) are paired with the frame column by column
+        if isinstance(operand, Expr) and operand.ndim == 2:
+            if list(operand.columns) != list(expr.frame.columns):
+                return
+            operands[i] = operand[column_union]
+    result = type(expr)(expr.frame[column_union], *operands)
     if column_union == parent.operand("columns"):
         return result
     return type(parent)(result, parent.operand("columns"))
